@@ -246,6 +246,62 @@ def r201(ctx, classes):
         ctx.bad("R-20.1", helper, "pbc_dist_coordinate may return (a view of) its input: callers that normalise the result in place would modify the system")
 
 
+_WRAPPERS = ("array", "asarray", "list", "tuple", "copy", "asfarray", "ascontiguousarray")
+
+
+def _is_base(fl, e, at, base, depth=0):
+    """Is `e` the box itself (the expression `base`, possibly re-bound through array constructors)?"""
+    if depth > 6 or e is None:
+        return False
+    if ast.unparse(e).replace(" ", "") == base:
+        return True
+    if isinstance(e, ast.Call) and last_name(e) in _WRAPPERS and e.args:
+        return _is_base(fl, e.args[0], at, base, depth + 1)
+    if isinstance(e, ast.Name):
+        srcs = fl.sources(e, at)
+        return bool(srcs) and all((kind == "param" and extra == base) or (kind == "expr" and _is_base(fl, node, sat, base, depth + 1)) for kind, node, sat, extra in srcs)
+    return False
+
+
+def _from_box3(m, fl, e, at, base, depth=0):
+    """Does `e` derive, on every path, from the first three components of the box `base`?
+    Looks through array constructors, locals and - one level - through a helper function of the
+    same module whose every return derives from its parameter's [:3]."""
+    if depth > 6 or e is None:
+        return False, "?"
+    if isinstance(e, ast.Subscript) and isinstance(e.slice, ast.Slice) and e.slice.lower is None and e.slice.step is None \
+            and isinstance(e.slice.upper, ast.Constant) and e.slice.upper.value == 3 and _is_base(fl, e.value, at, base):
+        return True, ""
+    if isinstance(e, ast.Call) and last_name(e) in _WRAPPERS and e.args:
+        return _from_box3(m, fl, e.args[0], at, base, depth + 1)
+    if isinstance(e, ast.Call) and isinstance(e.func, ast.Name) and e.func.id in m.funcs and len(e.args) == 1 and not e.keywords \
+            and _is_base(fl, e.args[0], at, base):
+        h = m.funcs[e.func.id]
+        hp = [a.arg for a in h.args.args]
+        if len(hp) >= 1:
+            hfl = flow_of(h)
+            rets = [r for r in walk_local(h) if isinstance(r, ast.Return)]
+            if not rets:
+                return False, f"{h.name}() returns nothing"
+            for r in rets:
+                ok, why = _from_box3(m, hfl, r.value, hfl.cfg.node_of(r), hp[0], depth + 1)
+                if not ok:
+                    return False, f"helper {h.name}() returns `{short(r.value, 40)}` on one path, which is not the first three components of the box it was given"
+            return True, ""
+    if isinstance(e, ast.Name):
+        srcs = fl.sources(e, at)
+        if not srcs:
+            return False, e.id
+        for kind, node, sat, extra in srcs:
+            if kind != "expr":
+                return False, f"{kind} {extra}"
+            r, w = _from_box3(m, fl, node, sat, base, depth + 1)
+            if not r:
+                return False, w
+        return True, ""
+    return False, ast.unparse(e).replace(" ", "")
+
+
 def r202(ctx, classes):
     rid = "R-20.2"
     n = 0
@@ -256,31 +312,11 @@ def r202(ctx, classes):
         for call in [x for x in walk_local(calc) if isinstance(x, ast.Call) and last_name(x) == "pbc_dist_coordinate"]:
             n += 1
             b = kwarg(call, "box_lengths", 1)
-            def from_box3(e, at, depth=0):
-                if depth > 6 or e is None:
-                    return False, "?"
-                txt = ast.unparse(e).replace(" ", "")
-                if txt == f"{sysname}.box[:3]":
-                    return True, ""
-                if isinstance(e, ast.Call) and last_name(e) in ("array", "asarray", "list", "tuple", "copy") and e.args:
-                    return from_box3(e.args[0], at, depth + 1)
-                if isinstance(e, ast.Name):
-                    srcs = fl.sources(e, at)
-                    if not srcs:
-                        return False, e.id
-                    for kind, node, sat, extra in srcs:
-                        if kind != "expr":
-                            return False, f"{kind} {extra}"
-                        r, w = from_box3(node, sat, depth + 1)
-                        if not r:
-                            return False, w
-                    return True, ""
-                return False, txt
-            ok, why = from_box3(b, fl.cfg.node_of(call))
+            ok, why = _from_box3(m, fl, b, fl.cfg.node_of(call), sysname + ".box")
             if ok:
                 ctx.ok(rid, call, f"{name}: the box handed to pbc_dist_coordinate is {sysname}.box[:3] (3- and 9-component forms give the same lengths)")
             else:
-                ctx.bad(rid, call, f"{name}.calculate hands the raw system box to pbc_dist_coordinate ({why}): with the 9-component box that GROMACS / CP2K produce the helper indexes past the 3-vector distance (IndexError) - siblings use box[:3]",
+                ctx.bad(rid, call, f"{name}.calculate hands pbc_dist_coordinate box lengths that are not the first three components of the system box ({why}): the 3- and the 9-component form of the same box (GROMACS / CP2K produce the latter) do not give the same result",
                         construct=short(call, 70))
     if n < 4:
         raise AnalysisError(f"R-20.2: only {n} pbc_dist_coordinate call sites found")
@@ -671,6 +707,10 @@ VARIANTS = [
     B("c20-calculate-order-negates-in-place", ENGBASE, "            system.vel = vel * -1.0 if system.vel_rev else vel", "            if system.vel_rev:\n                vel *= -1.0\n            system.vel = vel", "R-20.1"),
     B("c20-pbc-helper-in-place", ORDERP, "    pbcdist = np.zeros(distance.shape)\n", "    pbcdist = distance\n", "R-20.1"),
     B("c20-distancevel-raw-box", ORDERP, "            box = np.array(system.box[:3])\n            delta = pbc_dist_coordinate(delta, box)\n        lamb = np.sqrt(np.dot(delta, delta))\n        # Add the velocity", "            delta = pbc_dist_coordinate(delta, system.box)\n        lamb = np.sqrt(np.dot(delta, delta))\n        # Add the velocity", "R-20.2", control=True, why="pre-fix D9"),
+    K("c20-keep-box-helper", ORDERP, "            box = np.array(system.box[:3])\n            delta = pbc_dist_coordinate(delta, box)\n        lamb = np.sqrt(np.dot(delta, delta))\n        return [lamb]", "            box = _box_lengths(system.box)\n            delta = pbc_dist_coordinate(delta, box)\n        lamb = np.sqrt(np.dot(delta, delta))\n        return [lamb]",
+      also=[(ORDERP, "class OrderParameter:\n", "def _box_lengths(box):\n    box = np.asarray(box, dtype=float)\n    return np.array(box[:3])\n\n\nclass OrderParameter:\n")], why="a correct helper must stay silent (seed C20_f used a helper)"),
+    B("c20-box-helper-wrong-guard", ORDERP, "            box = np.array(system.box[:3])\n            delta = pbc_dist_coordinate(delta, box)\n        lamb = np.sqrt(np.dot(delta, delta))\n        return [lamb]", "            box = _box_lengths(system.box)\n            delta = pbc_dist_coordinate(delta, box)\n        lamb = np.sqrt(np.dot(delta, delta))\n        return [lamb]", "R-20.2",
+      also=[(ORDERP, "class OrderParameter:\n", "def _box_lengths(box):\n    box = np.asarray(box, dtype=float)\n    if box.size > 3 and np.any(box[:3]):\n        return np.full(3, np.inf)\n    return np.array(box[:3])\n\n\nclass OrderParameter:\n")], why="seeded C20_f"),
     B("c20-dihedral-raw-box", ORDERP, "            box = np.array(system.box[:3])\n            vector1 = pbc_dist_coordinate(vector1, box)", "            box = np.array(system.box)\n            vector1 = pbc_dist_coordinate(vector1, box)", "R-20.2"),
     B("c20-distancevel-not-declared", ORDERP, "        super().__init__(description=txt, velocity=True)\n        self.periodic = periodic\n        self.index = index", "        super().__init__(description=txt, velocity=False)\n        self.periodic = periodic\n        self.index = index", "R-20.3", control=True),
     B("c20-reverse-never-recomputes", PATH, "        if order_function.velocity_dependent and rev_v:\n            for phasepoint in new_path.phasepoints:\n                phasepoint.order = order_function.calculate(phasepoint)", "        if False:\n            for phasepoint in new_path.phasepoints:\n                phasepoint.order = order_function.calculate(phasepoint)", "R-20.3"),
